@@ -10,7 +10,7 @@ from .core import sut, is_raised
 
 op_specs = st.fixed_dictionaries(
     {
-        "kind": st.sampled_from(["leaf", "leaf", "leaf", "compound", "compound", "rebind", "null", "grow"]),
+        "kind": st.sampled_from(["leaf", "leaf", "leaf", "compound", "compound", "rebind", "null", "grow", "wild_string"]),
         "li": st.integers(0, 1000),
         "int": st.integers(-(2**63), 2**64 - 1),
         "float": st.floats(width=32),
@@ -63,6 +63,36 @@ def apply_op(op, root, node, model, labels):
             return r
         labels.add("op:grow")
         return ("ok", None)
+    if kind == "wild_string":
+        # a string whose size straddles the space reserved for it (multi-byte characters included): the library may
+        # refuse it (C11 decides whether it must); if it accepts it, the value read back becomes the model value and
+        # the callers' locality oracles apply as for any other assignment
+        leaves = [(p, s) for p, s in mat.leaf_paths(spec, model) if p and s["k"] == "string"]
+        if not leaves:
+            return ("skip",)
+        path, lspec = leaves[op["li"] % len(leaves)]
+        _, cur = mat.model_get(spec, model, path)
+        room = len(cur.encode("utf8"))
+        slot_room = (room + 9 + 7) // 8 * 8 - 9  # bytes available up to the slot boundary
+        ch = ["a", "\u00e9", "\u20ac", "\U0001F600"][op["int"] % 4]
+        nb = len(ch.encode("utf8"))
+        n = [slot_room // nb, slot_room // nb + 1, slot_room, slot_room + 1, max(slot_room - 1, 0), (slot_room + 8) // nb][op["li"] // 7 % 6]
+        new = ch * n
+        parent = sut(reach, root, node, path[:-1], op["via"], op["li"])
+        if is_raised(parent):
+            return parent
+        r = sut(mat.obj_set, parent[0], parent[1], path[-1:], new)
+        if is_raised(r):
+            labels.add("op:wild_string_refused")
+            return ("skip",)
+        back = sut(lambda: mat.obj_get(root, node, path)[0])
+        if is_raised(back):
+            return back
+        mat.model_set(spec, model, path, back if isinstance(back, str) else back.to_str())
+        labels.add("op:wild_string_accepted")
+        if len(new.encode("utf8")) > room:
+            labels.add("op:wild_string_accepted_into_slot_slack")
+        return ("ok", path)
     if kind == "leaf":
         leaves = [(p, s) for p, s in mat.leaf_paths(spec, model) if p]
         if not leaves:
@@ -84,6 +114,8 @@ def apply_op(op, root, node, model, labels):
         return ("ok", path)
     if kind == "compound":
         comps = [(p, s) for p, s in mat.compound_paths(spec, model) if p and p[-1][0] != "d"]
+        if spec["k"] in ("struct", "array") and (op["li"] % 4 == 0 or not comps):
+            comps = [([], spec)]  # the root itself, through _update()
         if not comps:
             return ("skip",)
         path, cspec = comps[op["li"] % len(comps)]
@@ -94,6 +126,28 @@ def apply_op(op, root, node, model, labels):
         if cspec["k"] == "array" and cspec["item"]["k"] == "scalar" and op["int"] % 2 == 0 and isinstance(arg, list):
             arg = np.array(new["flat"], dtype=mat.NP_DTYPES[cspec["item"]["t"]]).reshape(new["shape"])
             labels.add("op:compound_ndarray")
+        if op["int"] % 5 == 1 and hasattr(root, "_buffer"):
+            # an existing object of the very same class, in the same or in another buffer of the context
+            same = op["li"] % 2 == 0
+            dst = root._buffer if same else type(root._buffer)(capacity=64, context=root._buffer.context)
+            arg = sut(cnode.cls, arg, _buffer=dst)
+            if is_raised(arg):
+                return arg
+            labels.add("op:compound_xobject_same_buffer" if same else "op:compound_xobject_other_buffer")
+            if tg.has_refs(cspec):
+                labels.add("op:compound_xobject_with_refs")
+        if not path:
+            tgt = root if op["via"] == "handle" or not hasattr(root, "_buffer") else mat.view_of(root)
+            r = sut(tgt._update, arg)
+            if is_raised(r):
+                return r
+            if cspec["k"] == "struct":
+                model.update(new)
+            else:
+                model["flat"][:] = new["flat"]
+            labels.add("op:compound_root")
+            labels.add("via:" + op["via"])
+            return ("ok", path)
         parent = sut(reach, root, node, path[:-1], op["via"], op["li"])
         if is_raised(parent):
             return parent
